@@ -1,0 +1,15 @@
+//go:build verif
+
+package plonk
+
+import "github.com/consensys/gnark-crypto/ecc/bls24-315/fr"
+
+// Verification hook (build tag verif only): observe the coefficients of the blinding polynomials
+// of L, R, O and Z right after they were sampled by Prove.
+var VerifHookBlinding func(bl, br, bo, bz []fr.Element)
+
+func verifBlinding(bl, br, bo, bz []fr.Element) {
+	if VerifHookBlinding != nil {
+		VerifHookBlinding(bl, br, bo, bz)
+	}
+}
